@@ -989,6 +989,59 @@ pub fn run(tier: Tier) -> i32 {
             e.2 += v.2;
         }
     });
+    // constants are in scope only after their definition: every identifier in a constant
+    // expression replaced by every constant name; a name that is not defined earlier must be rejected
+    {
+        let names = ["A", "B", "C", "D", "E"];
+        // (name, type, expression with <0>/<1> holes, names referenced originally)
+        let defs: [(&str, &str, &str, &[&str]); 5] = [
+            ("A", "usize", "2usize", &[]),
+            ("B", "usize", "<0> + 1usize", &["A"]),
+            ("C", "usize", "max(<0>, <1>)", &["A", "B"]),
+            ("D", "usize", "min(<0>, 3usize) - <1>", &["C", "A"]),
+            ("E", "usize", "<0>", &["D"]),
+        ];
+        let mut e = (0u64, 0u64, 0u64);
+        for (di, (_, _, _, refs)) in defs.iter().enumerate() {
+            for hole in 0..refs.len() {
+                for repl in names {
+                    let mut src = String::new();
+                    for (dj, (n, t, ex, rs)) in defs.iter().enumerate() {
+                        let mut ex = ex.to_string();
+                        for (h, r) in rs.iter().enumerate() {
+                            let name = if dj == di && h == hole { repl } else { r };
+                            ex = ex.replace(&format!("<{h}>"), name);
+                        }
+                        src.push_str(&format!("const {n}: {t} = {ex};\n"));
+                    }
+                    src.push_str("pub fn main(x: [u8; E], y: u8) -> u8 {\n  x[0] + y + (D as u8)\n}\n");
+                    let defined_earlier = names.iter().position(|n| *n == repl).unwrap() < di;
+                    e.0 += 1;
+                    let case = json!({"kind": "const-scope", "source": src});
+                    let site = format!("N/ConstScope/{} in the definition of {}", repl, defs[di].0);
+                    match catch(|| garble_lang::compile(&src).map(|_| ())) {
+                        Err(p) => {
+                            coll.push(Violation::new("C17", site.clone(), "ill-typed-accepted", "", case.clone(), format!("checker accepted a constant that refers to a constant not defined before it; compiler panicked: {p}")));
+                            coll.push(Violation::new("C07", site, "rust-panic", "", case, p));
+                        }
+                        Ok(Ok(())) => {
+                            if !defined_earlier {
+                                coll.push(Violation::new("C17", site, "ill-typed-accepted", "", case, "a constant that refers to itself or to a later constant was accepted and compiled"));
+                            }
+                        }
+                        Ok(Err(err)) => {
+                            if defined_earlier {
+                                coll.push(Violation::new("C05", site, "rejected-welltyped", "", case, format!("{err:?}")));
+                            } else {
+                                e.1 += 1;
+                            }
+                        }
+                    }
+                }
+            }
+        }
+        per_rule.lock().unwrap().insert("ConstScope".into(), e);
+    }
     let per_rule = per_rule.into_inner().unwrap();
     let mutants: u64 = per_rule.values().map(|v| v.0).sum();
     let rejected: u64 = per_rule.values().map(|v| v.1).sum();
